@@ -9,6 +9,9 @@ Label tokens (one case = `ctor=<bits>` followed by labels in global execution or
   P<t>.<ty>.<0|1>     task t asks ctx.state(T_ty[, default=<explicit default>])
   Ws<t> / Wc<t>       task t starts a child through ctx.spawn / plain loop.create_task (child id = next free id)
   F<t>                task t returns
+  H<t>.<b>.<A|S>.<…>  task t *constructs* the scope object of block b (`cm = ctx.scope(...)`, same fields as the E label of b)
+                      without entering it; the later `E<u>.<b>…` – by the same or by another task – enters that object.
+                      No effect on the specification or on the model (they never see it: `strip_holds`).
 """
 from __future__ import annotations
 
@@ -161,6 +164,34 @@ class _Sim:
                     self.labels.append(f"P{self.rng.randrange(len(self.tasks))}.{self.rng.randrange(NTYPES)}.0")
 
 
+def strip_holds(case: str) -> str:
+    return " ".join(t for t in case.split() if not t.startswith("H"))
+
+
+def hoist_constructions(rng, labels, p=0.15):
+    """for some async/sync scope blocks: construct the scope object earlier – by the entering task itself at an earlier
+    point of its life, or by its parent just before it starts the task"""
+    out = list(labels)
+    for lab in labels:
+        if lab[0] != "E" or lab.split(".")[2] not in "AS" or rng.random() >= p:
+            continue
+        t = task_of(lab)
+        i_e = out.index(lab)
+        # index of the W label that created task t (tasks are numbered in creation order)
+        n, born, parent = 1, 0, None
+        for i, l in enumerate(out[:i_e]):
+            if l[0] == "W":
+                if n == t:
+                    born, parent = i + 1, task_of(l)
+                n += 1
+        body = lab[1:].split(".", 1)[1]
+        if parent is not None and rng.random() < 0.5:
+            out.insert(born - 1, f"H{parent}.{body}")          # the parent prepares it, then starts the task
+        else:
+            out.insert(rng.randint(born, i_e), f"H{t}.{body}")
+    return out
+
+
 def gen_case(rng, max_tasks, max_depth, max_blocks, steps) -> str:
     sim = _Sim(rng, max_tasks, max_depth, max_blocks)
     pool = rng.sample(range(NTYPES), rng.randint(1, 3))  # few types => frequent shadowing
@@ -172,7 +203,10 @@ def gen_case(rng, max_tasks, max_depth, max_blocks, steps) -> str:
             sim.do(t, rng.choice(ops), pool)
     sim.close_all()
     # drop probes by finished tasks (close_all may add some)
-    return f"ctor={CTOR} " + " ".join(_drop_dead_probes(sim.labels))
+    labels = _drop_dead_probes(sim.labels)
+    if rng.random() < 0.4:
+        labels = hoist_constructions(rng, labels)
+    return f"ctor={CTOR} " + " ".join(labels)
 
 
 def churn_case(n: int, kinds: str = "SU") -> str:
@@ -433,7 +467,16 @@ def run_real(case: str) -> str:
             while True:
                 l = await next_op(tid)
                 k = l[0]
-                if k == "E":
+                if k == "H":
+                    _t, b, kind, rest = l[1:].split(".")
+                    parts = rest.split("/")
+                    direct = make(parse_insts(parts[0]))
+                    specs = [parse_insts(p) for p in parts[1:]]
+                    disps = [_Disp(make(sp_), delay=1 + (sum(v for _ty, v in sp_) * 7 + 3 * (len(specs) - k)) % 4)
+                             for k, sp_ in enumerate(specs)]
+                    held[int(b)] = ctx.scope(f"b{b}", *direct, disposables=disps or None)
+                    done_flag["n"] += 1
+                elif k == "E":
                     _t, b, kind, rest = l[1:].split(".")
                     parts = rest.split("/")
                     direct = make(parse_insts(parts[0]))
@@ -441,13 +484,13 @@ def run_real(case: str) -> str:
                         specs = [parse_insts(p) for p in parts[1:]]
                         disps = [_Disp(make(sp_), delay=1 + (sum(v for _ty, v in sp_) * 7 + 3 * (len(specs) - k)) % 4)
                                  for k, sp_ in enumerate(specs)]
-                        cm = ctx.scope(f"b{b}", *direct, disposables=disps or None)
+                        cm = held.pop(int(b), None) or ctx.scope(f"b{b}", *direct, disposables=disps or None)
                         async with cm:
                             done_flag["n"] += 1
                             await block(tid)
                         done_flag["n"] += 1
                     elif kind == "S":
-                        cm = open_cms[int(b)] = ctx.scope(f"b{b}", *direct)
+                        cm = open_cms[int(b)] = held.pop(int(b), None) or ctx.scope(f"b{b}", *direct)
                         with cm:
                             done_flag["n"] += 1
                             await block(tid)
@@ -489,6 +532,7 @@ def run_real(case: str) -> str:
 
         children: list = []
         open_cms: dict[int, object] = {}
+        held: dict[int, object] = {}       # scope objects constructed ahead of their `with` (label H)
 
         async def interp(tid):
             try:
@@ -530,7 +574,7 @@ def shrink(case: str):
     toks = case.split()
     head, labels = toks[0], toks[1:]
     for i, l in enumerate(labels):
-        if l[0] == "P":
+        if l[0] in "PH":
             yield " ".join([head] + labels[:i] + labels[i + 1:])
     for i, l in enumerate(labels):
         if l[0] == "E":
@@ -538,7 +582,8 @@ def shrink(case: str):
             close = f"L{t}.{b}"
             if close in labels:
                 j = labels.index(close)
-                yield " ".join([head] + labels[:i] + labels[i + 1:j] + labels[j + 1:])
+                rest = [x for x in labels[:i] + labels[i + 1:j] + labels[j + 1:] if not x.startswith(f"H") or x.split(".")[1] != b]
+                yield " ".join([head] + rest)
             # drop one supplied instance
             parts = l.split(".")
             insts = parts[3]
